@@ -31,7 +31,7 @@ PAGES = {'short': b'oops', 'empty': b'', 'long': b'E' * 600}
 CTS = {'html': 'text/html', 'plain': 'text/plain', 'json': 'application/json',
        'octet': 'application/octet-stream'}
 AE = {'-': None, 'gzip': 'gzip', 'xgzip': 'x-gzip;q=0.5', 'identity': 'identity', 'gzipq0': 'gzip;q=0',
-      'other': 'compress', 'idq0gzip': 'identity;q=0, gzip'}
+      'other': 'compress', 'idq0': 'identity;q=0'}
 AC = {'-': None, 'utf8': 'utf-8', 'latin1': 'iso-8859-1', 'ascii': 'us-ascii', 'star': '*',
       'utf16': 'utf-16', 'bogus': 'x-nosuch'}
 
@@ -99,6 +99,14 @@ def byte_len(chunks):
     return sum(len(v) for k, v in chunks if k == 'b')
 
 
+def own_length(case, chunks):
+    """The Content-Length the handler sets itself: hcl=1 the byte length of its bytes chunks,
+    hcl='u' the length of its chunks with text encoded as UTF-8 (a handler that assumes UTF-8)."""
+    if case.get('hcl') == 'u':
+        return sum(len(v.encode('utf-8')) if k == 't' else len(v) for k, v in chunks if k in 'bt')
+    return byte_len(chunks)
+
+
 class Root(object):
     @cherrypy.expose
     def index(self, **kw):
@@ -110,15 +118,20 @@ class Root(object):
             resp.stream = True
         st = c.get('st', '-')
         if kind == 'X':
-            path = os.path.join(_INIT['tmp'], 'f.txt' if c.get('ct', 'html') in ('html', 'plain') else 'f.bin')
-            with open(path, 'wb') as f:
-                f.write(b''.join(v for k, v in chunks))
+            # one file per worker process (workers are forked after init and share the directory)
+            path = os.path.join(_INIT['tmp'], 'f-%d.%s' % (os.getpid(),
+                                                          'txt' if c.get('ct', 'html') in ('html', 'plain') else 'bin'))
+            data = b''.join(v for k, v in chunks)
+            if _INIT.get('written') != (path, data):
+                with open(path, 'wb') as f:
+                    f.write(data)
+                _INIT['written'] = (path, data)
             ctype = CTS[c.get('ct', 'html')]
             if st[0] == 's':
                 resp.status = int(st[1:])
             return _static.serve_file(path, content_type=ctype)
         if c.get('hcl'):
-            resp.headers['Content-Length'] = str(byte_len(chunks))
+            resp.headers['Content-Length'] = str(own_length(c, chunks))
         if st[0] == 's':
             resp.status = int(st[1:])
         elif st == 'i':
